@@ -63,17 +63,21 @@ EvPreMilestone ==
                                 <<"C04", l, "unpinned milestone placed before its predecessors", t>>)
   /\ UNCHANGED <<used, usage, lim, lsec, cur>>
 
+\* containers whose children are all scheduled but which have not been rolled up: the reference (Sched.tla, Pick) rolls them
+\* up before it looks for the next task, so that whoever waits for the container is ready at once
+PendingC == {c \in 1..NT : ~T(c).leaf /\ Kids(c) # {} /\ ~ts[c].sched /\ \A k \in Kids(c) : ts[k].sched}
+
 EvPick ==
   /\ E.ev = "Pick"
   /\ LET t == E.task
-         ok == cur = 0 /\ FirstReady(t) /\ E.fwd = Fwd(t)
+         ok == cur = 0 /\ FirstReady(t) /\ E.fwd = Fwd(t) /\ PendingC = {}
          b == IF Fwd(t) THEN BoundF(t) ELSE Deadline(t)
          c == IF Fwd(t) THEN b \div G
               ELSE IF T(t).effort > 0 /\ Len(T(t).alloc) > 0 THEN CursorB(t, b) ELSE b \div G - 1
      IN /\ ts' = [ts EXCEPT ![t].st = "walk", ![t].cur = c, ![t].bslot = IF Fwd(t) THEN b \div G ELSE -1,
                             ![t].off = IF Fwd(t) THEN b % G ELSE 0, ![t].dl = b]
         /\ cur' = t
-        /\ conf' = (conf /\ ok) /\ div' = Note(ok, <<"Pick", t, "ready", Ready(t), "firstReady", FirstReady(t)>>)
+        /\ conf' = (conf /\ ok) /\ div' = Note(ok, <<"Pick", t, "ready", Ready(t), "firstReady", FirstReady(t), "containersNotRolledUp", PendingC>>)
   /\ UNCHANGED <<used, usage, lim, lsec, bad>>
 
 EvBegin ==
@@ -241,8 +245,8 @@ EvRollUp ==
 
 EvLoopEnd ==
   /\ E.ev = "LoopEnd"
-  /\ LET ok == ~E.crashed /\ \A t \in Leafs : ~Ready(t)      \* nothing schedulable was left behind
-     IN /\ conf' = (conf /\ ok) /\ div' = Note(ok, <<"LoopEnd", {t \in Leafs : Ready(t)}>>)
+  /\ LET ok == ~E.crashed /\ PendingC = {} /\ \A t \in Leafs : ~Ready(t)      \* nothing schedulable was left behind
+     IN /\ conf' = (conf /\ ok) /\ div' = Note(ok, <<"LoopEnd", {t \in Leafs : Ready(t)}, "containersNotRolledUp", PendingC>>)
         /\ bad' = bad \cup Flag(~E.crashed, <<"C11", l, "internal error in the scheduling loop", 0>>)
   /\ UNCHANGED <<used, usage, lim, lsec, ts, cur>>
 
